@@ -275,8 +275,4 @@ def run(ctx):
     ctx.explanation = ('C19: structural obligations on the log reader: library-API compatibility of every pandas call against the installed pandas; '
                        'integer-affine accounting of header/footer line numbers over non-blank lines; trigger strings and banner slices; append semantics; '
                        'the three flatten merge rules. Not decided: that pandas parses each printed number to the same value.')
-    api(ctx)
-    line_account(ctx)
-    triggers(ctx)
-    append_sem(ctx)
-    flatten(ctx)
+    ctx.run_rules([api, line_account, triggers, append_sem, flatten])
